@@ -144,7 +144,7 @@ inductive Who
 
 /-- what the closure could read from its unit when it was called -/
 inductive Seen
-  | element (name : Bytes) (attrs : List (Bytes × Bytes)) (selfClosing canHaveContent removed : Bool)
+  | element (name : Bytes) (ns : Model.Ns) (attrs : List (Bytes × Bytes)) (selfClosing canHaveContent removed : Bool)
   | endTag (name : Bytes) (removed : Bool)
   | text (text : Bytes) (last removed : Bool)
   | comment (text : Bytes) (removed : Bool)
@@ -343,8 +343,8 @@ def runClosures {τ ω : Type} (scripts : HId → Scripts ω) (kind : Nat) (who 
 def seeComment (c : Comment) : Seen := .comment c.text c.mutations.removed
 def seeText (c : TextChunk) : Seen := .text c.text c.lastInTextNode c.mutations.removed
 def seeEndTag (t : EndTag) : Seen := .endTag t.name t.mutations.removed
-def seeElement (e : Element) : Seen :=
-  .element e.startTag.name (e.startTag.attributes.map fun a => (a.name, a.value))
+def seeElement (ns : Model.Ns) (e : Element) : Seen :=
+  .element e.startTag.name ns (e.startTag.attributes.map fun a => (a.name, a.value))
     e.startTag.selfClosing e.canHaveContent e.startTag.mutations.removed
 
 /-- the result of `handle_token` + `into_bytes`: one chunk (the dispatcher drops it when empty) -/
@@ -475,7 +475,7 @@ def tokStartTag (cfg : Cfg) (s : St) (name : Bytes) (attrs : List (Bytes × Byte
       let chc := s.disp.nextElementCanHaveContent
       let active := s.disp.element.forEachActive
       let inv0 := s.inv
-      let r := runClosures cfg.elementScripts kElement Who.element seeElement Element.applyOps src
+      let r := runClosures cfg.elementScripts kElement Who.element (seeElement ns) Element.applyOps src
         active s (Element.new st chc)
       let s1 := r.1
       let el := r.2.1
